@@ -672,6 +672,19 @@ def c06(tier, seed):
         fl = {"checks": 100, "seed": rng.randrange(1, 1 << 64), "shrinktime": rng.choice(["0s", "30s", "30s"])}
         runs = [{}, {"expect": "replay_prev"}, {"cleanDir": True, "failfilePrev": True, "expect": "replay_prev", "expectRun": 1}]
         out.append(scenario("c06-%d-%s-%s" % (i, lg, bd), {"body": body}, fl, runs=runs, name=nm, tag={"log": lg, "body": bd, "testname": nm}))
+    # stale files of the same test that sort before the persisted failure (no longer valid, now passing, other version, garbage)
+    # must not keep it from being replayed
+    for i in range(6 if tier == "quick" else 60):
+        nm = rng.choice(["TestStale", "Test/stale one"])
+        stale = [{"path": ff_path(nm, "0000a"), "text": failfile_text([])},                       # runs out of data: no longer valid
+                 {"path": ff_path(nm, "0000b"), "text": failfile_text([0] * 12)},                 # now passes
+                 {"path": ff_path(nm, "0000c"), "text": failfile_text([9, 9, 9], version="v0.0.1")},
+                 {"path": ff_path(nm, "0000d"), "text": "garbage"},
+                 {"path": ff_path(nm, "0000e"), "text": failfile_text([1 << 63])}]
+        rng.shuffle(stale)
+        runs = [{}, {"files": stale[:rng.randrange(1, 6)], "expect": "replay_prev"}]
+        out.append(scenario("c06-stale-%d" % i, {"body": t_threshold("Int64", 1000)}, {"checks": 100, "seed": rng.randrange(1, 1 << 64)}, runs=runs, name=nm,
+                            tag={"log": "nothing", "body": "threshold", "testname": nm, "stale": True}))
     # an explicit -rapid.failfile is tried before the files found in the test's directory
     for i in range(4 if tier == "quick" else 40):
         body = t_threshold("Int64", 1000)
